@@ -172,6 +172,146 @@ def explore(ctx, h, drv, n, nops, label):
         audit_images(ctx, drv, cases)
 
 
+# ---------------------------------------------------------------- single data block: writer model `IwModel.KvBlk`
+
+VSIZES = [0, 0, 1, 2, 3, 5, 8, 12, 20, 40, 60, 90, 110, 120, 124, 125, 126, 127, 128, 129, 130, 200, 300, 500, 900, 1500, 3000]
+
+
+def _val(r, n):
+    seed = r.randrange(256)
+    return bytes((seed + i * 13) & 0xFF for i in range(n))
+
+
+def gen_block_history(r, nops, profile):
+    """one database, at most 32 distinct keys (=> one node, one data block), an image after EVERY op"""
+    nk = r.choice([3, 8, 16, 24, 32, 32])
+    keys = set()
+    klen = r.choice([1, 4, 12, 40, 125])
+    while len(keys) < nk:
+        L = max(1, klen + r.choice([-1, 0, 0, 1, 2, 3]))
+        if r.random() < 0.05:
+            L = r.choice([127, 128, 200])              # key length needing a 2-byte vnum
+        keys.add(bytes(r.randrange(256) for _ in range(L)))
+    keys = sorted(keys)
+    live = {}
+    ops = ["open 0 1 0", "db 1 0"]
+    nimg = [0]
+
+    def img():
+        nimg[0] += 1
+        ops.append("image @IMG%d" % nimg[0])
+
+    def put(k, n):
+        ops.append("put 1 %s 0 %s 0 0" % (G.H(k), G.H(_val(r, n))))
+        live[k] = n
+        img()
+
+    def cset(k, n):
+        ops.append("cur 0 open 1 eq %s 0" % G.H(k))
+        ops.append("cur 0 set %s 0" % G.H(_val(r, n)))
+        ops.append("cur 0 close")
+        if k in live:
+            live[k] = n
+        img()
+
+    def dele(k):
+        ops.append("del 1 %s 0" % G.H(k))
+        live.pop(k, None)
+        img()
+
+    def size():
+        x = r.random()
+        if profile == "small" or x < 0.6:
+            return r.choice(VSIZES[:14]) if profile == "small" else r.choice(VSIZES)
+        if x < 0.9:
+            return r.randrange(0, 400)
+        if x < 0.97:
+            return r.randrange(400, 6000)
+        return r.choice([16200, 16383, 16384, 20000])
+
+    while nimg[0] < nops:
+        x = r.random()
+        k = r.choice(keys)
+        if profile == "compact" and x < 0.12:
+            # forced compaction: many small records, delete most of them, then one large put
+            for kk in keys:
+                if kk not in live and nimg[0] < nops + 40:
+                    put(kk, r.choice([0, 1, 3, 10, 30]))
+            victims = r.sample(sorted(live), max(1, (len(live) * r.choice([1, 2, 3])) // 4))
+            for kk in victims:
+                dele(kk)
+            put(r.choice(keys), r.choice([150, 250, 300, 380, 440, 900]))
+        elif profile == "updates" and x < 0.10 and len(live) + 2 <= len(keys):
+            # exact gap: A and B placed one after the other, A deleted, B grown by A's record size -1/0/+1
+            ka, kb = r.sample([kk for kk in keys if kk not in live], 2)
+            na, nb = r.choice([0, 5, 30, 100, 126]), r.choice([0, 7, 60, 120])
+            put(ka, na)
+            put(kb, nb)
+            dele(ka)
+            reca = (1 if len(ka) < 128 else 2) + len(ka) + na
+            (cset if r.random() < 0.5 else put)(kb, max(0, nb + reca + r.choice([-1, 0, 0, 1])))
+        elif profile == "updates" and x < 0.5 and live:
+            k = r.choice(sorted(live))
+            n = live[k]
+            d = r.choice([-40, -3, -1, 0, 1, 2, 5, 17, 60, 128, 400])
+            (cset if r.random() < 0.4 else put)(k, max(0, n + d))
+        elif x < 0.50:
+            put(k, size())
+        elif x < 0.62 and live:
+            cset(r.choice(sorted(live)), size())
+        elif x < 0.64:
+            cset(k, size())
+        elif x < 0.90:
+            dele(r.choice(sorted(live)) if live and r.random() < 0.8 else k)
+        else:
+            for kk in r.sample(sorted(live), len(live) // r.choice([1, 2, 3])) if live else []:
+                dele(kk)
+    ops += ["close", "image @IMGclosed"]
+    return ops
+
+
+BLK_STEP = re.compile(r"^(put|del|cur \d+ set) ")
+
+
+def explore_block(ctx, h, drv, n, nops, label):
+    r = C.Rng(ctx.seed, "c06blk/" + label)
+    d = os.path.join(C.scratch(), "imgb")
+    os.makedirs(d, exist_ok=True)
+    cases = []
+    for i in range(n):
+        prof = ["mixed", "small", "compact", "updates"][i % 4]
+        ops = [l.replace("@IMG", os.path.join(d, "%s-%d-" % (label, i))) for l in gen_block_history(r, nops, prof)]
+        cases.append(Case("block-" + prof, ops, None, key=hash(tuple(ops))))
+    ctx.sample(dict(kind="block-history", n_ops=len(cases[0].ops), first_ops=[l[:80] for l in cases[0].ops[:6]]))
+    canon = lambda l: "image" if l.startswith("image ") and not l.startswith("image 0") and not l.startswith("image -1") else l
+    # in chunks: the images of a chunk are removed before the next one is produced
+    for a in range(0, len(cases), 8):
+        chunk = cases[a:a + 8]
+        probs = differential(ctx, [h, C.scratch() + "/kv6b-%s.db" % label], [drv, "kvblk"], chunk, timeout=600, canon=canon)
+        for c, p in probs:
+            if p[0] == "diverge":
+                ctx.hist("block:diverge")
+                ctx.corr_broken.append("data-block writer model / implementation diverge at op %d `%s`: impl `%s` model `%s` (history prefix: %s)" % (
+                    p[1], c.ops[p[1]][:80], p[2][:100], p[3][:300], [l[:60] for l in c.ops[max(0, p[1] - 4):p[1]]]))
+            else:
+                ctx.fail(c01.signature(c, p), dict(ops=c.ops, detail=p[1:]), str(p[1])[:400])
+        rc, tr, _ = C.run_lines([drv, "kvblk-trace"], [l for c in chunk for l in c.ops], timeout=300)
+        for l in tr:
+            for w in l.split()[2:]:
+                if ":" in w:
+                    ctx.hist("block:" + w)
+        for c in chunk:
+            if c.model is not None:
+                ctx.hist("block:images", sum(1 for l in c.model if l == "image"))
+                ctx.hist("block:steps", sum(1 for l in c.ops if BLK_STEP.match(l)))
+            for l in c.ops:
+                if l.startswith("image "):
+                    try:
+                        os.unlink(l.split()[1])
+                    except OSError:
+                        pass
+
+
 def run(ctx):
     ctx.cov["rule"] = ("a case is a history (1-3 databases of any key mode, puts with values up to 70 KB, deletes, delete waves emptying nodes, metadata of 1-3000 bytes, "
                        "database destroy / create) with file images taken every ~20 ops (non-WAL) and after close (both modes); every image is parsed and audited "
@@ -186,6 +326,15 @@ def run(ctx):
     else:
         explore(ctx, h, drv, 500, 300, "t")
         explore(ctx, h, drv, 10, 6000, "tl")
+    if drv:
+        ctx.cov["rule"] += ("; block stream: one database with <= 32 keys (one node, one data block), puts / cursor sets with growing and shrinking values, "
+                            "deletes, forced compaction, an image after EVERY op: the Lean writer model of one data block (IwModel.KvBlk) replays the ops and "
+                            "must equal the block in the file (szpow, index size, 32 slot pairs, records, live bytes)")
+        if ctx.tier == "quick":
+            explore_block(ctx, h, drv, 40, 150, "bq")
+        else:
+            explore_block(ctx, h, drv, 400, 200, "bt")
+            explore_block(ctx, h, drv, 20, 1500, "btl")
     if ctx.proof_broken or ctx.corr_broken:
         explore(ctx, h, drv, 80, 250, "search")
 
